@@ -23,6 +23,11 @@ CHECKS.update({
    text="FrameBuild.tla models push_pdu / push_pdu_slice_rest / mark_sendable over an abstract datagram list and defines Encode, an independent byte-level encoder of the EtherCAT frame. TLC enumerates every push program over an operation alphabet (all 11 command kinds, both address forms, lengths and overrides around the remaining space, fill-the-rest 0..2*capacity) for frame sizes from the 28-byte minimum, proves NeverExceedsCapacity, LengthFieldExact, WellFormed (datagrams tile the payload, more-follows on all but the last, zero working counter and IRQ) and Headers on the model, and prints each program; the harness executes each program, and seeded programs for every frame size up to 1514, on a real CreatedFrame; TLC (FrameBuildTrace) then requires every answer of every push and every transmitted byte to equal ApplyOp/Encode.",
    note="The TLA+ Encode operator is the trusted independent encoder; datagram indices are taken from the returned handles; frame sizes come from a const-generic table (28..64, then selected sizes up to 1514)."),
 })
+CHECKS.update({
+ "C05": dict(engine="rxtriage", section="6/C05",
+   text="RxTriage.tla transcribes the receive path's byte-level triage (Ethernet check, ethertype/source filter, EtherCAT header, length slicing, index extraction, search among slots awaiting a response, claim, copy) as the operator Triage over byte sequences and slot-state vectors. TLC enumerates every slot-state vector (11 preparations per slot, 1 and 2 slots) times every structure-aware mutation of a valid reply (every truncation, ethertype, own/foreign source, protocol nibble, 11 boundary values of the length field, matching/stale/absent indices, with and without enough trailing bytes) and proves OnlyAcceptedSlotChanges, AcceptedOnlyIntoAwaitingSlot, OwnAndForeignIgnored, NoMatchNoAccept; the same cases and seeded arbitrary byte strings (up to 4 slots) are delivered to the real PduRx with slot states prepared through the real API, every slot (state, index word, whole buffer) is snapshotted before and after, and TLC checks the property clauses on the snapshots (monitor) and equality with Triage (conformance).",
+   note="Deliveries are sequential; 'accepted into' = the slot the receive side claimed (an oversize matching frame may leave it RxBusy); panics are caught and reported as violations."),
+})
 NOT_BUILT = {}
 def main():
     props = [json.loads(l) for l in open(os.path.join(V, "properties.jsonl"))]
@@ -58,6 +63,8 @@ def main():
         engines=[
             dict(name="framebuild", path="checks/framebuild.py", serves_properties=["C04"],
                  kind_free_text="FrameBuild.tla + FrameBuildMC/Trace; harness framebuild (push programs on a real CreatedFrame)"),
+            dict(name="rxtriage", path="checks/rxtriage.py", serves_properties=["C05"],
+                 kind_free_text="RxTriage.tla + RxTriageMC/Trace; harness rxtriage (prepared slot states, before/after snapshots)"),
             dict(name="pduloop", path="checks/pduloop.py", serves_properties=[p for p in ["C01","C02","C03","C06"] if p in CHECKS],
                  kind_free_text="PduLoop.tla + PduLoopMC/Trace/Monitor; harness vsched + pduloop (token scheduler over OS threads, virtual embassy-time clock)"),
         ],
